@@ -1409,6 +1409,11 @@ func (e *limbEngine) assume(fr *lframe, v *lval, val bool) bool {
 		st.facts = append(st.facts, lfact{op: c.op, d: pl, site: c.site, top: top, val: val})
 		return true
 	}
+	if op == token.EQL && (c.l.real || c.r.real) {
+		// float64 values are roundings: their equality does not make the exact quantities equal
+		st.bad = append(st.bad, fmt.Sprintf("an equality of float64 values (roundings of %s and %s) is relied on at %s as if the exact values were equal", c.l.p, c.r.p, e.c.pos(c.site.Pos())))
+		return true
+	}
 	pl, tl := e.eff(st, c.l)
 	pr, tr := e.eff(st, c.r)
 	top := e.isTop(fr, c.site)
